@@ -1226,7 +1226,7 @@ func (t *target) emit(fset *token.FileSet) {
 func genLocks(ps []*packages.Package) {
 	fmt.Println("(* GENERATED by tools/cmd/gensyntax (T5) from the repository's type-checked syntax. Do not edit. *)")
 	fmt.Println("From Coq Require Import List String.")
-	fmt.Println("From Verif.Model Require Import LockTab.")
+	fmt.Println("From Verif.Model Require Import LockTab WaitTab.")
 	fmt.Println("Import ListNotations.")
 	fmt.Println("Local Open Scope string_scope.")
 	for _, lt := range lockTargets {
@@ -1244,5 +1244,6 @@ func genLocks(ps []*packages.Package) {
 		t.build(pkg)
 		t.solve()
 		t.emit(pkg.Fset)
+		t.emitWaits(pkg.Fset) // wait discipline tables (locks_wait.go), for structs with a WaitGroup
 	}
 }
